@@ -306,6 +306,19 @@ static void run_lines(const vh::Lines &ls) {
 			} else if(o == "sview") {
 				VE a = eval(w, t[1]);
 				new_str(w, new FS(a.v), a.ref, "basic_string(view)");
+			} else if(o == "scsa") {                    // compatibility overload basic_string(Allocator, const Char *)
+				Buf &b = g_bufs.at(vh::u64(t[1])); size_t off = vh::u64(t[2]);
+				SS r = b.bytes.substr(off); r = r.substr(0, r.find(CharT(0)));
+				new_str(w, new FS(LogAlloc{}, (const CharT *)(b.p + off)), r, "basic_string(Allocator, const char*)");
+			} else if(o == "spla") {                    // compatibility overload basic_string(Allocator, const Char *, size_t)
+				Buf &b = g_bufs.at(vh::u64(t[1])); size_t off = vh::u64(t[2]), len = vh::u64(t[3]);
+				new_str(w, new FS(LogAlloc{}, (const CharT *)(b.p + off), len), b.bytes.substr(off, len), "basic_string(Allocator, ptr, len)");
+			} else if(o == "sviewa") {                  // compatibility overload explicit basic_string(Allocator, const view &)
+				VE a = eval(w, t[1]);
+				new_str(w, new FS(LogAlloc{}, a.v), a.ref, "basic_string(Allocator, view)");
+			} else if(o == "sfill0") {                  // basic_string(size): the fill character defaults to 0
+				size_t n = vh::u64(t[1]);
+				new_str(w, new FS(n), SS(n, CharT(0)), "basic_string(size)");
 			} else if(o == "sfill") {
 				size_t n = vh::u64(t[1]); CharT c = (CharT)vh::u64(t[2]);
 				new_str(w, new FS(n, c), SS(n, c), "basic_string(size, c)");
